@@ -314,25 +314,36 @@ example : acceptsUndef (.var [.str, .undef]) = true ∧ acceptsUndef (.var [.str
     3d635fb) and C07-callable-parameters-key (the key was built from `Parameters()`, which drops Unit members and an implied
     Tuple size; /repo fix a044786): `Callable` and `Callable[String]` are no longer Equal; `Callable[Unit, String]` and
     `Callable[String]` (never Equal) now have different keys; `Unique` keeps what is distinct, a Hash finds what is equal -/
+def calD : Ty := .callable false [] false .any false .any
+def calT (ts : List Ty) : Ty := .callable true ts false .any false .any
 theorem C07_callable_repaired :
-    tyEq (.callable false []) (.callable true [.str]) = false ∧ tyEq (.callable true [.str]) (.callable false []) = false ∧
-    tyEq (.callable true [.str]) (.callable true [.int 1 2]) = false ∧ tyEq (.callable true [.str]) (.callable true [.str]) = true ∧
-    tyKey (.callable false []) ≠ tyKey (.callable true [.str]) ∧
-    tyEq (.callable true [.nul .unit, .str]) (.callable true [.str]) = false ∧
-    tyKey (.callable true [.nul .unit, .str]) ≠ tyKey (.callable true [.str]) ∧
-    tyKey (.callable true [.str, .nul .unit]) ≠ tyKey (.callable true [.nul .unit, .str]) ∧
-    tyKey (.callable true []) ≠ tyKey (.callable false []) ∧
-    (unique [.typ (.callable true [.str]), .typ (.callable true [.nul .unit, .str]), .typ (.callable true [.str])]).length = 2 ∧
-    (hashGet [(.typ (.callable true [.str]), .int 1)] (.typ (.callable true [.nul .unit, .str]))).isSome = false ∧
-    TyWF (.callable true [.nul .unit, .str]) = true := by decide
+    tyEq calD (calT [.str]) = false ∧ tyEq (calT [.str]) calD = false ∧
+    tyEq (calT [.str]) (calT [.int 1 2]) = false ∧ tyEq (calT [.str]) (calT [.str]) = true ∧
+    tyKey calD ≠ tyKey (calT [.str]) ∧
+    tyEq (calT [.nul .unit, .str]) (calT [.str]) = false ∧
+    tyKey (calT [.nul .unit, .str]) ≠ tyKey (calT [.str]) ∧
+    tyKey (calT [.str, .nul .unit]) ≠ tyKey (calT [.nul .unit, .str]) ∧
+    tyKey (calT []) ≠ tyKey calD ∧
+    (unique [.typ (calT [.str]), .typ (calT [.nul .unit, .str]), .typ (calT [.str])]).length = 2 ∧
+    (hashGet [(.typ (calT [.str]), .int 1)] (.typ (calT [.nul .unit, .str]))).isSome = false ∧
+    TyWF (calT [.nul .unit, .str]) = true := by decide
 
 /-- the full statement for the Callable family: now an instance of `C07_type_key_iff` (no exception is left) -/
 def C07_callable_key_iff_full : Prop :=
-  ∀ (h h' : Bool) (ts us : List Ty), TyWF (.callable h ts) = true → TyWF (.callable h' us) = true →
-    (tyKey (.callable h ts) = tyKey (.callable h' us) ↔ tyEq (.callable h ts) (.callable h' us) = true)
-theorem C07_callable_key_iff : C07_callable_key_iff_full := fun _ _ _ _ ha hb => C07_type_key_iff _ _ ha hb
-example : tyKey (.callable true [.var [.str, .undef], .int 1 2]) = tyKey (.callable true [.var [.undef, .str], .int 1 2]) :=
-  (C07_callable_key_iff true true _ _ (by decide) (by decide)).mpr (by decide)
+  ∀ (h h' : Bool) (ts us : List Ty) (hr hr' : Bool) (r r' : Ty) (hb hb' : Bool) (b b' : Ty),
+    TyWF (.callable h ts hr r hb b) = true → TyWF (.callable h' us hr' r' hb' b') = true →
+    (tyKey (.callable h ts hr r hb b) = tyKey (.callable h' us hr' r' hb' b') ↔
+      tyEq (.callable h ts hr r hb b) (.callable h' us hr' r' hb' b') = true)
+theorem C07_callable_key_iff : C07_callable_key_iff_full := fun _ _ _ _ _ _ _ _ _ _ _ _ ha hb => C07_type_key_iff _ _ ha hb
+/-- with a return and a block type: `Callable[[String], Variant[String,Undef], Callable[String]]` in another member order -/
+example : tyKey (.callable true [.str] true (.var [.str, .undef]) true (calT [.str])) =
+    tyKey (.callable true [.str] true (.var [.undef, .str]) true (calT [.str])) :=
+  (C07_type_key_iff _ _ (by decide) (by decide)).mpr (by decide)
+example : tyKey (.callable true [.str] true .str false .any) ≠ tyKey (.callable true [.str] false .any true .str) ∧
+    tyEq (.callable true [.str] true .str false .any) (.callable true [.str] false .any false .any) = false ∧
+    tyEq (.callable false [] true .str false (.int 1 2)) (.callable false [.undef] true .str false .str) = true := by decide
+example : tyKey (calT [.var [.str, .undef], .int 1 2]) = tyKey (calT [.var [.undef, .str], .int 1 2]) :=
+  (C07_type_key_iff _ _ (by decide) (by decide)).mpr (by decide)
 
 /-- every type inside a comparable value is well-formed -/
 theorem typesIn_wf : ∀ (n : Nat) (x : Val), sizeOf x ≤ n → cmp x = true → ∀ a ∈ typesIn x, TyWF a = true := by
@@ -591,11 +602,11 @@ def cacheFieldsOk (f : Pcore.Heap.CacheFacts) : Bool :=
 theorem C07_cache_fields_ok : cacheFieldsOk Pcore.Generated.cacheFacts = true := by decide
 
 /-- non-vacuity: a three-entry hash asked before and after forcing, and against a permuted copy with its index built -/
-def sampleH : CHash := { entries := [(.str [0x61], .int 1), (.semver verMin, .int 2), (.typ (.callable true [.str]), .int 3)] }
-def sampleH' : CHash := ({ entries := [(.typ (.callable true [.str]), .int 3), (.str [0x61], .int 1), (.semver verMin, .int 2)] } : CHash).force
+def sampleH : CHash := { entries := [(.str [0x61], .int 1), (.semver verMin, .int 2), (.typ (calT [.str]), .int 3)] }
+def sampleH' : CHash := ({ entries := [(.typ (calT [.str]), .int 3), (.str [0x61], .int 1), (.semver verMin, .int 2)] } : CHash).force
 example : sampleH.Coherent ∧ sampleH'.Coherent ∧ sampleH'.index.isSome = true := ⟨Or.inl rfl, Or.inr rfl, rfl⟩
 example : (sampleH.equals sampleH').2 = true ∧ ((sampleH.get (.semver verMin)).2).map kb = some (kb (.int 2)) ∧
-    (sampleH'.includesKey (.typ (.callable true [.str]))).2 = true ∧ (sampleH'.includesKey (.typ (.callable false []))).2 = false := by decide
+    (sampleH'.includesKey (.typ (calT [.str]))).2 = true ∧ (sampleH'.includesKey (.typ calD)).2 = false := by decide
 
 /-! ## second tie: the kind prefixes regenerated from the Go sources are the ones the model writes -/
 
